@@ -117,7 +117,18 @@ func (e *Engine) typeID(t types.Type) int {
 	if id, ok := e.typeIDs[k]; ok {
 		return id
 	}
-	id := len(e.typeIDs) + 1
+	// a stable id (independent of the order in which types are met): FNV-1a of the type's name
+	h := uint32(2166136261)
+	for i := 0; i < len(k); i++ {
+		h ^= uint32(k[i])
+		h *= 16777619
+	}
+	id := 1 + int(h%1000003)
+	for _, other := range e.typeIDs {
+		if other == id {
+			id += 1000003 // keep ids distinct on the (unlikely) collision
+		}
+	}
 	e.typeIDs[k] = id
 	return id
 }
@@ -212,8 +223,16 @@ func (e *Engine) Verify(name string) (run *FuncRun, err error) {
 		c = e.mergedContract(c)
 	}
 	run = &FuncRun{eng: e, fn: fn, contract: c, name: shortName(name), inlined: map[string]bool{}, assumedCallees: map[string]bool{}}
+	e.resetTerms()
 	defer func() {
-		if r := recover(); r != nil {
+		if r := recover(); r == nil {
+			if run != nil && err == nil {
+				e.renderRun(run)
+				run.entry, run.params, run.inputs = nil, nil, nil
+			}
+			e.resetTerms()
+		} else {
+			e.resetTerms()
 			switch x := r.(type) {
 			case outsideSubset:
 				err = fmt.Errorf("%s: %s", name, x.Error())
@@ -235,6 +254,8 @@ func (e *Engine) Verify(name string) (run *FuncRun, err error) {
 		}
 	}
 	st := newState()
+	// nil is never an allocated object
+	st.assume(And(Not(Select(st.H(allocKey, allocSort), IntLit(0))), Not(Select(st.H(allocAKey, allocSort), IntLit(0)))))
 	var args []Val
 	run.params = map[string]Val{}
 	env := &SpecEnv{eng: e, pkg: fn.Pkg.Pkg.Path(), pkgScope: fn.Pkg.Pkg, cur: st, vars: map[string]Val{}}
@@ -303,28 +324,17 @@ func (run *FuncRun) canary(where string, pc *Term) {
 // DischargeCanaries checks that no canary's premises are contradictory. A canary passes when
 // the solver does not answer unsat (sat, unknown and timeout are all fine).
 func (e *Engine) DischargeCanaries(cs []*Oblig, timeoutS int) (vacuous []*Oblig) {
-	axioms := e.axioms()
-	type job struct {
-		o *Oblig
-		s string
-		q bool
-	}
-	var jobs []job
-	for _, o := range cs {
-		s, q := e.scriptFor(o, axioms)
-		jobs = append(jobs, job{o, s, q})
-	}
 	var wg sync.WaitGroup
 	sem := make(chan struct{}, 16)
-	for i := range jobs {
+	for _, o := range cs {
 		wg.Add(1)
-		go func(j *job) {
+		go func(o *Oblig) {
 			defer wg.Done()
 			sem <- struct{}{}
 			defer func() { <-sem }()
-			r := Solve(j.s, j.q, timeoutS, e.scratch, j.o.Name)
-			j.o.Result = &r
-		}(&jobs[i])
+			r := Solve(o.Script, o.Quant, timeoutS, e.scratch, o.Name)
+			o.Result = &r
+		}(o)
 	}
 	wg.Wait()
 	for _, o := range cs {
@@ -434,82 +444,46 @@ func (e *Engine) scriptFor(o *Oblig, axioms []*Term) (string, bool) {
 }
 
 func (e *Engine) Discharge(obligs []*Oblig, timeoutS int, stats *DischargeStats) {
-	axioms := e.axioms()
-	// scripts are rendered sequentially (term store is not thread safe), solved in parallel
-	type job struct {
-		o      *Oblig
-		script string
-		quant  bool
-	}
-	var jobs []job
+	// queries were rendered when their function was verified (render.go); solve them in parallel
+	var jobs []*Oblig
 	for _, o := range obligs {
-		if o.Goal == True || And(o.PC, Not(o.Goal)) == False {
+		if o.Trivial {
 			o.Result = &SolverResult{Status: "unsat", Backend: "simplifier"}
 			continue
 		}
-		s, q := e.scriptFor(o, axioms)
-		o.Quant = q
-		jobs = append(jobs, job{o, s, q})
+		jobs = append(jobs, o)
 	}
 	var wg sync.WaitGroup
 	sem := make(chan struct{}, 16)
-	for i := range jobs {
+	for _, o := range jobs {
 		wg.Add(1)
-		go func(j *job) {
+		go func(o *Oblig) {
 			defer wg.Done()
 			sem <- struct{}{}
 			defer func() { <-sem }()
 			to := timeoutS
-			if j.o.TimeoutS > 0 {
-				to = j.o.TimeoutS
+			if o.TimeoutS > 0 {
+				to = o.TimeoutS
 			}
-			r := Solve(j.script, j.quant, to, e.scratch, j.o.Name)
-			j.o.Result = &r
-		}(&jobs[i])
+			r := Solve(o.Script, o.Quant, to, e.scratch, o.Name)
+			o.Result = &r
+		}(o)
 	}
 	wg.Wait()
-	// candidate counterexamples for undischarged obligations: drop quantified facts and ask again
-	var cjobs []job
-	for _, j := range jobs {
-		if j.o.Result.Status != "unsat" && j.o.Result.Status != "sat" && j.quant {
-			var keep []*Term
-			for _, c := range conjuncts(j.o.PC) {
-				if !termQuantified(c) {
-					keep = append(keep, c)
+	// candidate counterexamples for undischarged obligations: quantified facts dropped
+	for _, o := range jobs {
+		if o.Result.Status != "unsat" && o.Result.Status != "sat" && o.CandScript != "" {
+			wg.Add(1)
+			go func(o *Oblig) {
+				defer wg.Done()
+				sem <- struct{}{}
+				defer func() { <-sem }()
+				r := Solve(o.CandScript, false, timeoutS, e.scratch, o.Name+".cand")
+				if r.Status == "sat" {
+					o.Candidate = &r
 				}
-			}
-			goal := j.o.Goal
-			if termQuantified(goal) {
-				continue
-			}
-			var gm []*Term
-			for _, in := range j.o.Inputs {
-				gm = append(gm, in.T)
-			}
-			s, _ := Script(logicOpts, func(seen map[string]bool) (string, bool) {
-				decls := strDecls
-				codec, _ := codecPrelude(seen)
-				for _, ln := range strings.Split(codec, "\n") {
-					if strings.HasPrefix(ln, "(declare-fun") {
-						decls += ln + "\n"
-					}
-				}
-				return decls, false
-			}, strLitAxiomsFor(j.o.PC, goal), keep, Not(goal), gm)
-			cjobs = append(cjobs, job{j.o, s, false})
+			}(o)
 		}
-	}
-	for i := range cjobs {
-		wg.Add(1)
-		go func(j *job) {
-			defer wg.Done()
-			sem <- struct{}{}
-			defer func() { <-sem }()
-			r := Solve(j.script, false, timeoutS, e.scratch, j.o.Name+".cand")
-			if r.Status == "sat" {
-				j.o.Candidate = &r
-			}
-		}(&cjobs[i])
 	}
 	wg.Wait()
 	if stats != nil {
